@@ -34,13 +34,14 @@ type World struct {
 	Files    []string // contract files
 	loops    map[*ssa.Function]*loopInfo
 	Known    map[string]*KnownFinding
+	Uninterp map[string]*UninterpDef
 	OnlyProp string
 	debug    map[*ssa.Function]map[string][]*ssa.DebugRef
 }
 
 func LoadWorld(repo, root string) (*World, error) {
 	w := &World{Repo: repo, Root: root, SSAPkg: map[string]*ssa.Package{}, Specs: map[string]*FuncSpec{}, Pures: map[string]*PureDef{},
-		Layouts: map[string]*LayoutType{}, loops: map[*ssa.Function]*loopInfo{}, debug: map[*ssa.Function]map[string][]*ssa.DebugRef{}}
+		Layouts: map[string]*LayoutType{}, Uninterp: map[string]*UninterpDef{}, loops: map[*ssa.Function]*loopInfo{}, debug: map[*ssa.Function]map[string][]*ssa.DebugRef{}}
 	cfg := &packages.Config{Mode: packages.LoadAllSyntax, Dir: repo, BuildFlags: []string{"-tags=verif"}, Tests: false,
 		Env: append(os.Environ(), "GOFLAGS=-mod=mod", "GOPROXY=off", "GOSUMDB=off", "GOTOOLCHAIN=local")}
 	pkgs, err := packages.Load(cfg, "./...")
@@ -134,6 +135,9 @@ func LoadWorld(repo, root string) (*World, error) {
 				w.Pures[pd.Pkg+"."+pd.Name] = pd
 			}
 			w.Lemmas = append(w.Lemmas, sf.Lemmas...)
+			for _, u := range sf.Uninterp {
+				w.Uninterp[u.Name] = u
+			}
 		}
 	}
 	sort.Strings(w.Files)
